@@ -291,6 +291,7 @@ def C10(ctx):
         ev["placement::place_on_matrix_data"] = "C01.R5"
     if d_il:
         ev["polynomials::structure"] = "C02.R4"
+    ev["version::Version::from_n"] = "C03.T1 (every size Version::size produces; a panic there is reported by that rule)"
     if d_score:
         ev["score::"] = "C11.R9 (complete small domains, long lines, symbols of real sizes)"
     if d_div:
@@ -434,7 +435,9 @@ def C15(ctx):
     E.c15_r1(soft_if(ctx, d_blank, "C15.R3"), f, ct)
     G.c04_r3(ctx, f, rid="C15.R4", only_outside=True)
     G.c01_r5(ctx, f, rid="C15.R5")
-    S.c12_r2(ctx, ctx.facts("svg"))
+    # the module handed to the shape callbacks: decided exactly by the document rule (slot (y, x) is drawn iff module (y, x) is dark)
+    d_doc = G.c12_r7(ctx, ctx.facts("svg"), rid="C15.R7")
+    S.c12_r2(soft_if(ctx, d_doc, "C15.R7"), ctx.facts("svg"))
     witness.rule(ctx, "C15.W1", "callback slot is fn(usize, usize, Module) -> String; ModuleType has the eight documented regions",
                  ["w_c15_callback_type", "w_c15_module_types"])
     return dict(
